@@ -10,11 +10,13 @@ arguments through `isTrue`.
 namespace PySMT.C06
 open PySMT.Mk
 
+theorem evalOp_not (I : Interp) (p : Payload) (a : Val) : evalOp I .not p [a] = .b (!a.isTrue) := rfl
+
 theorem truth_node_not (I : Interp) (a : Term) (p : Payload) :
     truth I (.node .not [a] p) = !truth I a := by
   unfold truth
   rw [eval_op I .not [a] p (by decide) (by decide) (by decide) (by decide)]
-  simp only [List.map_cons, List.map_nil, evalOp, isTrue_b]
+  simp only [List.map_cons, List.map_nil, evalOp_not, isTrue_b]
 
 theorem not_truth (I : Interp) {a t : Term} (h : Mk.Not a = .ok t) : truth I t = !truth I a := by
   unfold Mk.Not at h
@@ -23,21 +25,33 @@ theorem not_truth (I : Interp) {a t : Term} (h : Mk.Not a = .ok t) : truth I t =
   · cases h
   · rw [create_ok h, truth_node_not]
 
+theorem eval_boolConst (I : Interp) (v : Bool) : eval I (Term.bool v) = .b v := by
+  unfold Term.bool
+  rw [eval_op I .boolConst _ _ (by decide) (by decide) (by decide) (by decide)]
+  rfl
+
+theorem evalOp_and (I : Interp) (p : Payload) (vs : List Val) : evalOp I .and p vs = .b (vs.all Val.isTrue) := rfl
+theorem evalOp_or (I : Interp) (p : Payload) (vs : List Val) : evalOp I .or p vs = .b (vs.any Val.isTrue) := rfl
+
 theorem and_truth (I : Interp) {as : List Term} {t : Term} (h : Mk.And as = .ok t) :
     truth I t = as.all (truth I) := by
   unfold Mk.And at h
   split at h
-  · cases h; simp [truth, Mk.TRUE, Term.tt, eval_op, evalOp, isTrue_b]
+  · cases h; have := eval_boolConst I true; simp [truth, Mk.TRUE, Term.tt, Term.bool] at this ⊢; simp [this]
   · cases h; simp
-  · rw [create_ok h]; simp [truth, eval_op, evalOp, isTrue_b, List.all_map, Function.comp_def]; rfl
+  · rw [create_ok h]; unfold truth
+    rw [eval_op I .and _ _ (by decide) (by decide) (by decide) (by decide), evalOp_and]
+    simp [isTrue_b, List.all_map, Function.comp_def]
 
 theorem or_truth (I : Interp) {as : List Term} {t : Term} (h : Mk.Or as = .ok t) :
     truth I t = as.any (truth I) := by
   unfold Mk.Or at h
   split at h
-  · cases h; simp [truth, Mk.FALSE, Term.ff, eval_op, evalOp, isTrue_b]
+  · cases h; have := eval_boolConst I false; simp [truth, Mk.FALSE, Term.ff, Term.bool] at this ⊢; simp [this]
   · cases h; simp
-  · rw [create_ok h]; simp [truth, eval_op, evalOp, isTrue_b, List.any_map, Function.comp_def]; rfl
+  · rw [create_ok h]; unfold truth
+    rw [eval_op I .or _ _ (by decide) (by decide) (by decide) (by decide), evalOp_or]
+    simp [isTrue_b, List.any_map, Function.comp_def]
 
 theorem evalOp_implies (I : Interp) (p : Payload) (a b : Val) :
     evalOp I .implies p [a, b] = .b (!a.isTrue || b.isTrue) := rfl
@@ -63,9 +77,13 @@ theorem xor_truth (I : Interp) {a b t : Term} (h : Mk.Xor a b = .ok t) :
   rw [not_truth I hn, iff_truth I he]
   cases truth I a <;> cases truth I b <;> rfl
 
+theorem evalOp_equals (I : Interp) (p : Payload) (a b : Val) :
+    evalOp I .equals p [a, b] = .b (decide (a = b)) := rfl
+
 theorem equals_eval (I : Interp) {a b t : Term} (h : Mk.Equals a b = .ok t) :
     eval I t = .b (decide (eval I a = eval I b)) := by
-  rw [create_ok h]; simp [eval_op, evalOp]
+  rw [create_ok h, eval_op I .equals _ _ (by decide) (by decide) (by decide) (by decide)]
+  simp only [List.map_cons, List.map_nil, evalOp_equals]
 
 theorem notEquals_truth (I : Interp) {a b t : Term} (h : Mk.NotEquals a b = .ok t) :
     truth I t = decide (eval I a ≠ eval I b) := by
